@@ -8,7 +8,7 @@ import sys, os, subprocess, shutil, tempfile, json, glob, time
 VERIF = os.path.dirname(os.path.dirname(os.path.abspath(__file__)))
 
 def sh(cmd, **kw):
-    return subprocess.run(cmd, stdout=subprocess.PIPE, stderr=subprocess.STDOUT, text=True, **kw)
+    return subprocess.run(cmd, stdout=subprocess.PIPE, stderr=subprocess.STDOUT, text=True, errors="replace", **kw)
 
 def scratch(patch=None):
     d = tempfile.mkdtemp(prefix="cello-seeded-", dir=os.environ.get("TMPDIR", "/tmp"))
